@@ -177,6 +177,14 @@ class Path:
     self.taken.append(choice)
     return choice
 
+  def define(self, name, vars_, body):
+    """A fresh function symbol with a definitional axiom (conservative)."""
+    f = z3.Function(self.fresh_name('def_' + name),
+                    *([v.sort() for v in vars_] + [body.sort()]))
+    app = f(*vars_)
+    self.hyps.append(z3.ForAll(list(vars_), app == body, patterns=[app]))
+    return f
+
   def oblige(self, name, goal, props=None, kind='prove', meta=None):
     self.obls.append(Obligation(name, list(self.hyps), goal,
                                 props or self.props, kind, meta))
@@ -225,7 +233,23 @@ class Executor:
     raise PyRaise(VExc(cls, args=args or [], note=note))
 
   def fresh(self, kind, prefix):
-    return kind.fresh(self.path.fresh_name(prefix))
+    w = kind.fresh(self.path.fresh_name(prefix))
+    self.assume_wf(w)
+    return w
+
+  def assume_wf(self, w):
+    """Well-formedness of a symbolic value: list lengths are non-negative."""
+    if isinstance(w, VList):
+      self.path.assume(w.len >= 0)
+    elif isinstance(w, VOpt):
+      self.assume_wf(w.inner)
+    elif isinstance(w, VTuple):
+      for i in w.items:
+        self.assume_wf(i)
+    elif isinstance(w, VRecord):
+      for i in w.fields.values():
+        self.assume_wf(i)
+    return w
 
   def truth(self, w, node=None):
     """z3 Bool of Python truthiness (may fork for 'may raise' policy)."""
@@ -244,15 +268,15 @@ class Executor:
   # -- state ------------------------------------------------------------------
   def init_state(self):
     for name, kind in self.state_spec.items():
-      self.G[name] = working_copy(kind.fresh('G0_' + name))
+      self.G[name] = self.assume_wf(working_copy(kind.fresh('G0_' + name)))
 
   def snapshot_state(self):
     return {k: snapshot(v) for k, v in self.G.items()}
 
   def havoc_state(self, names, tag='hv'):
     for n in names:
-      self.G[n] = working_copy(self.state_spec[n].fresh(
-          self.path.fresh_name(f'{tag}_{n}')))
+      self.G[n] = self.assume_wf(working_copy(self.state_spec[n].fresh(
+          self.path.fresh_name(f'{tag}_{n}'))))
 
   # -- name resolution --------------------------------------------------------------
   def lookup(self, name, node=None):
@@ -280,6 +304,11 @@ class Executor:
     if lk is None:
       lk = self.contract.local_kinds.get(fr.qual.split('::')[-1] + ':' + name)
     if lk is not None and not isinstance(w, VNone):
+      if isinstance(w, VOpt) and not isinstance(lk, KOpt):
+        self.path.oblige(f'{self.contract.qual}/safety/{name}_not_none'
+                         f'#{getattr(node, "lineno", 0)}', z3.Not(w.is_none))
+        self.path.assume(z3.Not(w.is_none))
+        w = w.inner
       w = coerce(self.world.materialize(self, w, lk), lk)
     fr.env[name] = w
 
@@ -317,6 +346,8 @@ class Executor:
       c.ghost_init(ctx)
     if c.setup:
       c.setup(self, ctx)
+    for gname, init in c.ghost_vars.items():
+      fr.env['ghost_' + gname] = init(self.ctx())
     for cl in c.requires:
       self.path.assume(cl.fn(ctx))
     self.entry_hyps = len(self.path.hyps)
@@ -805,6 +836,8 @@ class Executor:
       names |= extract.assigned_names([ast.Assign(targets=[s.target], value=ast.Constant(0))])
     if spec.havoc:
       names |= set(spec.havoc)
+    if spec.ghost:
+      names |= set('ghost_' + g for g in spec.ghost)
     if spec.keep:
       names -= set(spec.keep)
     fr = self.frame
@@ -827,7 +860,7 @@ class Executor:
       for cl in spec.invariants:
         path.assume(cl.fn(ctx, k))
       if is_for:
-        self.assign(s.target, it.at(k))
+        self.assign(s.target, self.assume_wf(it.at(k)))
       else:
         if not self.decide_truth(self.ev(s.test), s.test):
           raise PathEnd()    # covered by the exit alternative
@@ -838,7 +871,7 @@ class Executor:
       except BreakSig:
         return               # continue after the loop, skipping orelse
       if spec.ghost_step:
-        spec.ghost_step(self.loop_ctx(it), k)
+        spec.ghost_step(self, self.loop_ctx(it), k)
       ctx2 = self.loop_ctx(it)
       for cl in spec.invariants:
         path.oblige(f'{q}/inv#{n}/step/{cl.label}', cl.fn(ctx2, k + 1), cl.props)
@@ -857,6 +890,8 @@ class Executor:
       if not is_for:
         if self.decide_truth(self.ev(s.test), s.test):
           raise PathEnd()
+      if spec.after:
+        spec.after(self, self.loop_ctx(it))
       self.exec_block(s.orelse)
 
   def loop_ctx(self, it):
@@ -885,8 +920,8 @@ class Executor:
           continue
         if isinstance(old, VNone):
           continue
-        fr.env[name] = working_copy(kind_of(old).fresh(
-            self.path.fresh_name(f'lp{n}_{name}')))
+        fr.env[name] = self.assume_wf(working_copy(kind_of(old).fresh(
+            self.path.fresh_name(f'lp{n}_{name}'))))
 
   # -- expressions ----------------------------------------------------------------
   def ev(self, node):
@@ -1252,7 +1287,7 @@ class Executor:
         i = z3.If(i < 0, obj.len + i, i)
       if not self.path.decide(z3.And(0 <= i, i < obj.len)):
         self.py_raise('IndexError', node)
-      return obj.get(z3.simplify(i))
+      return self.assume_wf(obj.get(z3.simplify(i)))
     if isinstance(obj, VTuple):
       ci = idx.concrete() if isinstance(idx, VInt) else None
       if ci is None:
@@ -1273,7 +1308,7 @@ class Executor:
 
   def dict_read(self, d, key):
     """Reads d[key]; for dict-valued dicts the result is a write-through borrow."""
-    v = d.get(key)
+    v = self.assume_wf(d.get(key))
     if isinstance(v, (VDict, VList)):
       kexpr = d.key(key)
       v.escaped = True
@@ -1336,7 +1371,11 @@ class Executor:
     ew = self.ev(elt)
     self.frame.env = saved
     ek = kind_of(ew)
-    arr = z3.Lambda([j], ek.box(ew))
+    # the result array is a named constant characterised pointwise (a lambda
+    # would be beta-reduced away and leave the solver no term to trigger on)
+    arr = self.path.fresh_const('cmp', z3.ArraySort(sym.IntS, ek.sort()))
+    self.path.assume(z3.ForAll([j], z3.Select(arr, j) == ek.box(ew),
+                               patterns=[z3.Select(arr, j)]))
     return VList(KList(ek), it.len, arr)
 
   def ex_Yield(self, node):
